@@ -218,6 +218,40 @@ proof fn lemma_two_writes(c0: Seq<u8>, a: Seq<u8>, b: Seq<u8>)
     assert((c0 + a) + b =~= c0 + (a + b));
 }
 
+// length of the output: 4 characters per started group (what the kitty handler's 4096-byte chunking relies on)
+proof fn lemma_full_len(s: Seq<u8>)
+    ensures full(s).len() == 4 * (s.len() / 3),
+    decreases s.len(),
+{
+    if s.len() >= 3 {
+        lemma_full_len(s.skip(3));
+        assert(enc3(s[0], s[1], s[2]).len() == 4);
+    }
+}
+
+proof fn lemma_b64_len(s: Seq<u8>)
+    ensures b64(s).len() == 4 * ((s.len() + 2) / 3), b64(s).len() % 4 == 0,
+{
+    lemma_full_len(s);
+    lemma_rem_len(s);
+}
+
+// splitting a payload whose length is a multiple of four into pieces of 4096: every piece (k-th, 0-based) is a
+// multiple of four long, at most 4096, and only the last may be shorter - so `m = (k + 1 < count)` marks exactly
+// the non-final chunks and no base64 quantum is split across two graphics commands
+proof fn lemma_chunks_4096(total: nat, k: nat)
+    requires total % 4 == 0, k * 4096 < total,
+    ensures ({
+        let len = if (k + 1) * 4096 <= total { 4096 } else { (total - k * 4096) as int };
+        &&& 0 < len <= 4096
+        &&& len % 4 == 0
+        &&& (len < 4096 ==> (k + 1) * 4096 >= total)
+    }),
+{
+    assert((k * 4096) % 4 == 0) by (nonlinear_arith);
+    assert((k + 1) * 4096 == k * 4096 + 4096) by (nonlinear_arith);
+}
+
 proof fn lemma_stream_total(data: Seq<u8>)
     ensures full(Seq::<u8>::empty() + data) + enc_tail(rem(Seq::<u8>::empty() + data)) == b64(data),
 {
